@@ -883,7 +883,7 @@ Section InitData.
   Lemma pushed_entries_payload : forall o t p e, In e (pushed_entries sp o t p) -> snd e = p.
   Proof.
     intros o t p e H. unfold pushed_entries in H.
-    destruct (nconn sp o =? 0); [destruct H|]. destruct (os_static (sp_out sp o)); [destruct H as [<-|[]]; reflexivity|].
+    destruct (no_targets sp o); [destruct H|]. destruct (os_static (sp_out sp o)); [destruct H as [<-|[]]; reflexivity|].
     destruct (t =? sp_start sp)%Z; simpl in H; intuition (subst; reflexivity).
   Qed.
 
@@ -1014,7 +1014,7 @@ Lemma initial_data :
                exists t p, o_hinfo (wo w o) = Some t
                            /\ (exists ds, os_prov_data (sp_out sp o) = Some (ds, p))
                            /\ o_data (wo w o) =
-                              (if (nconn sp o =? 0) then []
+                              (if no_targets sp o then []
                                else if os_static (sp_out sp o) then [(None, p)]
                                else if (t =? sp_start sp)%Z then [(Some t, p)]
                                else [(Some (sp_start sp), p); (Some t, p)]))
@@ -1465,7 +1465,7 @@ Section Fix.
 
     Lemma lookup_pushed : forall o t p, 0 < nconn sp o -> is_some (lookup_data o (pushed_entries sp o t p)) = true.
     Proof.
-      intros o t p H. unfold pushed_entries. destruct (nconn sp o =? 0) eqn:E; [apply Nat.eqb_eq in E; lia|].
+      intros o t p H. unfold pushed_entries, no_targets. destruct (nconn sp o =? 0) eqn:E; [apply Nat.eqb_eq in E; lia|]. cbn [andb].
       unfold lookup_data. destruct (os_static (sp_out sp o)) eqn:Es; [reflexivity|].
       destruct (t =? sp_start sp)%Z eqn:Et; simpl.
       - apply Z.eqb_eq in Et. subst t. rewrite Z.ltb_irrefl, Z.eqb_refl. reflexivity.
